@@ -42,12 +42,17 @@ class RefG:
     def member(self, kind=None):
         r = self.rng
         x = r.random()
-        if x < 0.72:
+        if x < 0.66:
             return "Finished"
-        if x < 0.88:
+        if x < 0.80:
             return "Started"
-        # `Failed` exists for flows only: on an action reference the name cannot be computed (the flow fails) - legal input
-        return "Failed"
+        if x < 0.88:
+            # `Failed` exists for flows only: on an action reference the name cannot be computed (the flow fails) - legal input
+            return "Failed"
+        # the rest of `Action._event_name_map` / `FlowState._event_name_map`: names that are NOT `<object name><member>`
+        # (`StartFooAction`, `StopFlow`, `FooActionTranscriptUpdated` ...)
+        self.feats.add("ref-member-rare")
+        return r.choice(["Start", "Stop", "Change", "Updated", "TranscriptUpdated", "Pause", "Resumed"])
 
     def leaf_flows(self):
         r = self.rng
